@@ -310,6 +310,91 @@ def h_recovery(H):
     S.explore(body)
 
 
+def replay_dataflow(vals, oid):
+    """native: one waveform handed over as (time, traces), as a batch of one and inside a larger batch, for 1..8 traces: same features; recovery = min(trough + offset, T - 1)"""
+    rng = np.random.default_rng(2)
+    bad = []
+    for nch in (1, 2, 3, 5, 6, 8):
+        for T in (40, 82):
+            t = np.arange(T)
+            w = np.zeros((T, nch))
+            pk = int(T * 0.4)
+            w[:, nch // 2] = -np.exp(-0.5 * ((t - pk) / 2.0) ** 2) + 0.35 * np.exp(-0.5 * ((t - pk - 9) / 4.0) ** 2)
+            w += rng.normal(0, 0.003, w.shape)
+            other = rng.normal(0, 0.01, (3, T, nch))
+            other[:, T // 2, 0] = -2.0
+            f2 = W.compute_spike_features(w.copy())
+            f1 = W.compute_spike_features(w[None].copy())
+            fb = W.compute_spike_features(np.concatenate([other[:1], w[None], other[1:]]).copy())
+            off = int(round(0.16 * 30000 / 1000))
+            want = min(int(f1["trough_time_idx"].iloc[0]) + off, T - 1)
+            got = [int(f2["recovery_time_idx"].iloc[0]), int(f1["recovery_time_idx"].iloc[0]), int(fb["recovery_time_idx"].iloc[1])]
+            if got != [want] * 3:
+                bad.append({"traces": nch, "samples": T, "recovery_time_idx (2-D, batch of one, in a batch)": got, "trough + offset": want})
+    return {"failed": bool(bad), "cases": bad[:4]}
+
+
+@harness(PROPERTY, "compute_spike_features_dataflow", functions=["ibldsp.waveforms:compute_spike_features"], replay=replay_dataflow,
+         clause="each waveform's features do not depend on the other waveforms in the batch nor on how the batch is handed over: the steps are chained on the peak-trace array and the table of the step before, "
+                "with the caller's sampling rate and the recovery offset round(recovery_duration_ms * fs / 1000) whatever the shape of the input")
+def h_dataflow(H):
+    S = H.session("compute_spike_features")
+
+    def body(it):
+        import inspect
+        fs, dur = z3.Reals("fs recovery_duration_ms")
+        it.ctx.assume(z3.And(fs > 0, dur > 0))
+        for nd in (3, 2):
+            dims = z3.Ints("n T C") if nd == 3 else z3.Ints("T C")
+            for d_ in dims:
+                it.ctx.assume(d_ >= 2)
+            arr = A.fresh_array("arr_in", "float64", tuple(dims))
+            calls = []
+
+            def mk(name, returns):
+                real = getattr(W, name)
+
+                def f(it_, a, k, name=name, real=real, returns=returns):
+                    ba = inspect.signature(real).bind(*a, **k)
+                    ba.apply_defaults()
+                    calls.append((name, dict(ba.arguments)))
+                    return returns(name)
+                it.session.contracts[real] = f
+            tok = lambda nm: ("TABLE", nm)          # noqa  the table returned by step nm
+            mk("find_peak", lambda nm: tok(nm))
+            real_peak = []
+            mk("get_array_peak", lambda nm: real_peak.append(A.fresh_array("arr_peak_real", "float64", (z3.Int("nw"), z3.Int("Tw")))) or real_peak[-1])
+            mk("invert_peak_waveform", lambda nm: (A.fresh_array("arr_peak", "float64", (z3.Int("nw"), z3.Int("Tw"))), tok(nm)))
+            mk("find_tip_trough", lambda nm: (tok(nm), A.fresh_array("arr_peak2", "float64", (z3.Int("nw"), z3.Int("Tw")))))
+            for nm in ("peak_to_trough_duration", "half_peak_point", "half_peak_duration", "recovery_point", "polarisation_slopes", "recovery_slope"):
+                mk(nm, lambda nm_: tok(nm_))
+            out = run_function(it, W.compute_spike_features, [arr], {"fs": SV(fs), "recovery_duration_ms": SV(dur)})
+            names = [c[0] for c in calls]
+            want = ["find_peak", "get_array_peak", "invert_peak_waveform", "find_tip_trough", "peak_to_trough_duration", "half_peak_point", "half_peak_duration", "recovery_point", "polarisation_slopes", "recovery_slope"]
+            tag = f"{nd}d"
+            it.ctx.oblige(f"dataflow.steps.{tag}", z3.BoolVal(names == want), "post", "the documented chain of steps, once each")
+            if names != want:
+                continue
+            arg = {nm: a_ for nm, a_ in calls}
+            rp = arg["recovery_point"]
+            off = rp.get("idx_from_trough")
+            from pyvc.core import round_half_even
+            it.ctx.oblige(f"dataflow.recovery_offset.{tag}", (term(off) == round_half_even(dur * fs / 1000)) if isinstance(off, (SV, z3.ExprRef)) else z3.BoolVal(False), "post",
+                          "the recovery offset is round(recovery_duration_ms * fs / 1000) samples: it does not depend on the shape of the input (traces, samples, batch size)", assume=False)
+            peak2 = [c for c in calls if c[0] == "find_tip_trough"]
+            ok_chain = (arg["find_peak"].get("arr_in") is arr and arg["get_array_peak"].get("arr_in") is arr and arg["get_array_peak"].get("df") == tok("find_peak")
+                        and arg["half_peak_point"].get("df") == tok("peak_to_trough_duration") and arg["recovery_point"].get("df") == tok("half_peak_duration")
+                        and arg["polarisation_slopes"].get("df") == tok("recovery_point") and arg["recovery_slope"].get("df") == tok("polarisation_slopes") and out == tok("recovery_slope"))
+            it.ctx.oblige(f"dataflow.tables_chained.{tag}", z3.BoolVal(bool(ok_chain)), "post", "each step receives the table of the step before it; the last table is returned")
+            inv_in = arg["invert_peak_waveform"].get("arr_peak")
+            it.ctx.oblige(f"dataflow.inversion_works_on_a_copy.{tag}", z3.BoolVal(isinstance(inv_in, SArr) and len(real_peak) == 1 and not A.shares_memory(inv_in, real_peak[0])
+                                                                                    and arg["find_tip_trough"].get("arr_peak_real") is real_peak[0]), "post",
+                          "positive spikes are inverted in a copy: the peak traces handed to find_tip_trough as the un-inverted ones are the ones that were picked (whatever the precision of the input)")
+            fs_ok = all(isinstance(arg[nm].get("fs"), SV) and z3.is_true(z3.simplify(term(arg[nm]["fs"]) == fs)) for nm in ("peak_to_trough_duration", "half_peak_duration", "polarisation_slopes", "recovery_slope"))
+            it.ctx.oblige(f"dataflow.sampling_rate.{tag}", z3.BoolVal(bool(fs_ok)), "post", "durations and slopes are computed with the caller's sampling rate")
+    S.explore(body)
+
+
 @harness(PROPERTY, "equivariance_lemmas", functions=[], clause="scaling by c>0 leaves all indices unchanged; permuting channels only permutes the peak-channel index (lemmas over the arg-max specification)")
 def h_lemmas(H):
     # argmax specification: r is THE index with a[k] <= a[r] for all k and a[k] < a[r] for k < r.  Uniqueness + invariance under positive scaling.
